@@ -988,6 +988,13 @@ def crafted_mime_pairs():
                         ('IMAGE/svg+xml', '<svg>\n<a/>\n</svg>', '<svg>\n<b/>\n</svg>'), ('text/X-custom', 'p\nq\n', 'p\nr\n')]:
         out.append((nb([code([disp({'text/plain': 't', key: va})])]), nb([code([disp({'text/plain': 't', key: vb})])])))
         out.append((nb([md({'i.png': {key: va}})]), nb([md({'i.png': {key: vb}})])))
+    # members whose value is a legal but falsy / null JSON payload, unchanged and changed, next to other changes
+    for payload in (None, 0, False, '', [], {}):
+        for other_a, other_b in (('t', 't'), ('t', 'u')):
+            a = nb([code([disp({'text/plain': other_a, 'application/json': payload})])])
+            out.append((a, nb([code([disp({'text/plain': other_b, 'application/json': payload})])])))
+            out.append((a, nb([code([disp({'text/plain': other_b, 'application/json': {'k': payload}})])])))
+            out.append((nb([code([disp({'text/plain': other_a, 'application/json': {'k': 1}})])]), nb([code([disp({'text/plain': other_b, 'application/json': payload})])])))
     return out
 
 # ---------------------------------------------------------------- validation (only for processes allowed to import nbformat)
